@@ -91,7 +91,7 @@ def replay_paths(ctx, model, graph, paths, opts=None, label=''):
     for i, p in enumerate(paths):
         init, beh = graph.behaviour(p)
         if beh:
-            jobs.append((key, i, beh, dict(opts or {}, failmode=('raise', 'interrupt', 'mistyped')[i % 3])))
+            jobs.append((key, i, beh, dict(opts or {}, failmode=('raise', 'interrupt', 'mistyped')[i % 3], env0=i // 3)))
     t0 = time.time()
     out = pmap(_replay_job, jobs)
     ctx.traces += len(jobs)
@@ -210,7 +210,7 @@ def _replay_beh_job(job):
 
 def replay_behaviours(ctx, model, behs, opts=None, label=''):
     _MODEL[label] = model
-    jobs = [(label, i, b, dict(opts or {}, failmode=('raise', 'interrupt', 'mistyped')[i % 3])) for i, b in enumerate(behs) if b]
+    jobs = [(label, i, b, dict(opts or {}, failmode=('raise', 'interrupt', 'mistyped')[i % 3], env0=i // 3)) for i, b in enumerate(behs) if b]
     t0 = time.time()
     out = pmap(_replay_beh_job, jobs)
     ctx.traces += len(jobs)
